@@ -104,7 +104,8 @@ func rawSpecOf(c mContent) *specs.Spec {
 	sort.Strings(ds)
 	for _, d := range ds {
 		s.Devices = append(s.Devices, specs.Device{Name: d, ContainerEdits: specs.ContainerEdits{
-			Env: []string{"DEV=" + d, fmt.Sprintf("V=%d", c.V), "KIND=" + c.Kind}}})
+			Env:   []string{"DEV=" + d, fmt.Sprintf("V=%d", c.V), "KIND=" + c.Kind},
+			Hooks: []*specs.Hook{{HookName: "createContainer", Path: "/bin/hook-" + d}}}})
 	}
 	return s
 }
@@ -126,6 +127,10 @@ func contentBytes(c mContent, name string) []byte {
 				buf.WriteString("- name: \"" + d.Name + "\"\n  containerEdits:\n    env:\n")
 				for _, e := range d.ContainerEdits.Env {
 					buf.WriteString("    - \"" + e + "\"\n")
+				}
+				buf.WriteString("    hooks:\n")
+				for _, h := range d.ContainerEdits.Hooks {
+					buf.WriteString("    - hookName: " + h.HookName + "\n      path: " + h.Path + "\n")
 				}
 			}
 			return []byte(buf.String())
